@@ -461,6 +461,42 @@ def finish(ctx, level_info, build_ok, build_log, audit_res, extra_cov=None, assu
     return exit_code
 
 
+def generated_imports(prop):
+    """What this property's theorem modules read from lean/Generated/, through any chain of imports: the translated code of
+    other properties (`CodeCxx`) and extracted tables. All of it is regenerated from the current source before the build, so
+    that no obligation of this run is checked against a translation left over from an earlier run or another tree."""
+    import re
+    seen, deps, tables = set(), set(), set()
+    todo = sorted(set(e["module"] for e in theorems_for(prop)))
+    while todo:
+        m = todo.pop()
+        if m in seen:
+            continue
+        seen.add(m)
+        if m.startswith("Generated."):
+            name = m.split(".", 1)[1]
+            (deps if re.fullmatch(r"CodeC\d\d", name) else tables).add(name[4:] if name.startswith("CodeC") else name)
+            continue
+        f = os.path.join(LEAN, m.replace(".", "/") + ".lean")
+        if not os.path.exists(f):
+            continue
+        with open(f) as fh:
+            for line in fh:
+                mm = re.match(r"import\s+(\S+)", line)
+                if mm:
+                    todo.append(mm.group(1))
+    return deps - {prop}, tables
+
+
+def regenerate_tables(tables):
+    from harness import extract_ast, extract_sites
+    gens = {"HelperTable": extract_ast.gen_helper_table, "IoAliases": extract_ast.gen_io_aliases, "IoSites": extract_ast.gen_io_sites,
+            "ProxyTable": extract_ast.gen_proxy_table, "Sites": extract_sites.gen_site_table}
+    for t in sorted(tables):
+        if t in gens:
+            gens[t]()
+
+
 def run_property(mod, prop, tier, seed, replay=None):
     """The pipeline of DESIGN.md §2.2 for one property module."""
     ctx = Ctx(prop, tier, seed, replay)
@@ -479,8 +515,15 @@ def run_property(mod, prop, tier, seed, replay=None):
         from harness import py2lean
         if prop in py2lean.GROUPS:
             rep = py2lean.generate(prop)
-            for dep in py2lean.DEPENDS.get(prop, []):
-                rep.update(py2lean.generate(dep))
+            deps, tables = generated_imports(prop)
+            for dep in sorted(set(py2lean.DEPENDS.get(prop, [])) | deps):
+                if dep != prop and dep in py2lean.GROUPS:
+                    # (a function of ANOTHER property that no longer translates is that property's obligation; here it
+                    # matters only if a theorem of this property reads it, and then the build below fails)
+                    dep_rep = py2lean.generate(dep)
+                    rep.update({k: v for k, v in dep_rep.items() if v["status"] == "translated" or dep in py2lean.DEPENDS.get(prop, [])})
+            regenerate_tables(tables)
+            ctx.stats["regenerated_with"] = sorted(deps | tables)
             ctx.stats["translated_functions"] = sum(1 for r in rep.values() if r["status"] == "translated")
             for name, r in rep.items():
                 if r["status"] != "translated":
